@@ -823,7 +823,11 @@ Lemma no_term_app a b : no_term (a ++ b) = no_term a && no_term b.
 Proof. unfold no_term. apply forallb_app. Qed.
 
 Lemma expand_no_term body pc i : no_term (expand body pc i) = true.
-Proof. destruct i; reflexivity. Qed.
+Proof.
+  destruct i; try reflexivity.
+  (* ILazyGet k: [MLazyGetY k] for the yielding static, [MLazyGet k] otherwise *)
+  cbn [expand]. match goal with |- context [Nat.eqb ?k 2] => destruct (Nat.eqb k 2) end; reflexivity.
+Qed.
 
 Lemma expand_body_no_term body : forall l pc, no_term (expand_body_from body pc l) = true.
 Proof.
@@ -1711,7 +1715,10 @@ Proof.
 Qed.
 
 Lemma expand_nobo body pc i : is_bo_instr i = false -> nobo (expand body pc i) = true.
-Proof. destruct i; intros H; try discriminate H; reflexivity. Qed.
+Proof.
+  destruct i; intros H; try discriminate H; try reflexivity.
+  cbn [expand]. match goal with |- context [Nat.eqb ?k 2] => destruct (Nat.eqb k 2) end; reflexivity.
+Qed.
 
 Lemma expand_body_nobo body : forall l pc,
   forallb (fun i => negb (is_bo_instr i)) l = true -> nobo (expand_body_from body pc l) = true.
